@@ -33,7 +33,7 @@ def actorsOf (shell : String) (wd : String → String) (roles : List (String × 
     List CastDef → List String → Option (List (Actor × Role))
   | [], _ => some []
   | c :: rest, seen =>
-    match lookup c.role roles with
+    match roleOfCast c roles with
     | none => none
     | some r =>
       let news := expandCast c
